@@ -417,6 +417,20 @@ def run_dedrift_once(stg, R, fr, d, meta, via='explicit', tag=''):
     else:
         args = (d,)
     child, raised = None, None
+    if d != 0 and T >= 2 and (T + F) % 2 == 0:
+        # history: a frame with the same number of rows but another time resolution was de-drifted at exactly this rate before
+        R.bucket('dedrift:after-decoy-with-other-resolution')
+        try:
+            decoy = stg.Frame(fchans=max(F, 8), tchans=T, df=P.df, dt=P.dt * 2.0, fch1=6e9, ascending=not P.asc, seed=1)
+            decoy2 = stg.Frame(fchans=max(F, 8), tchans=T, df=P.df * 3.0, dt=P.dt, fch1=6e9, ascending=P.asc, seed=1)
+            for dd in (decoy, decoy2):
+                try:
+                    stg.dedrift(dd, abs(d))
+                    stg.dedrift(dd, -abs(d))
+                except ValueError:
+                    pass
+        except Exception:
+            raise
     try:
         with common.quiet():
             child = stg.dedrift(fr, *args)
